@@ -116,6 +116,14 @@ fn main() {
         check_strict::<B>(f, tf, loc);
         check_dyn(f, tf, loc);
     }));
+    // the same on large diagrams (sizes 33 .. 129)
+    let sizes: Vec<usize> = if ctx.quick() { vec![33, 65] } else { vec![33, 64, 65, 129] };
+    let big: Vec<_> = ohmc::props::structured::shapes_at(&sizes, false).into_iter().map(|x| x.1).collect();
+    ctx.run_slice(Slice::new(format!("structured-large[sizes {:?}: {} diagrams x {} functors, strict and dyn]", sizes, big.len(), tfl.len()), big.len() as u64 * tfl.len() as u64, |i, loc| {
+        let (f, tf) = (&big[(i / tfl.len() as u64) as usize], tfl[(i % tfl.len() as u64) as usize]);
+        check_strict::<B>(f, tf, loc);
+        check_dyn(f, tf, loc);
+    }));
     let meta = Meta {
         rule: "36 functors (object map label -> list of length 0, 1 or 2 per label; operation map by recipe: single operation, two-stage composite, spider-only merge, disconnected discard/create; for the lax trait additionally a composite handed over un-quotiented) crossed with every diagram of the universes (non-monogamous, cyclic, isolated nodes, zero-arity operations); strict Functor trait via define_map_arrow and lax trait via dyn_functor::define_map_arrow; result compared up to isomorphism with literal substitution on the plain model; functoriality (composition, tensor, dagger, identity, symmetry) on pairs through the public API; both Identity functors; plus four-node diagrams over a THIRD node label and diagrams with three hyperedges (four functors, strict and dyn path)".into(),
         bounds: "diagrams: <=2 nodes, <=1 (quick) / 2 hyperedges of arity <=2, interfaces <=1, 2+2 labels; 3-node diagrams with <=2 hyperedges (prefix in quick); functoriality on pairs of <=2 nodes / <=1 hyperedge".into(),
